@@ -107,9 +107,61 @@ def gen_class(r, depth, counter, max_fields=5):
         ordered.insert(r.randint(0, len(ordered)), f)
     spec = {'name': name, 'fields': ordered, 'kw_only_cls': kw_cls,
             'frozen': r.random() < 0.15, 'slots': r.random() < 0.15, 'base_split': None}
-    if len(ordered) >= 2 and r.random() < 0.2:
-        spec['base_split'] = r.randint(1, len(ordered) - 1)
+    if len(ordered) >= 2 and r.random() < 0.35:
+        k = spec['base_split'] = r.randint(1, len(ordered) - 1)
+        # the base class declares the first k fields; the subclass may RE-DECLARE some of them differently
+        # (default -> required, required -> default, default_factory <-> default, bare `list` -> List[int]);
+        # spec['fields'] is what dataclasses.fields(subclass) gives; spec['base_fields'] what the base declares
+        base = [dict(f) for f in ordered[:k]]
+        for b in base:
+            if b['kind'] != 'leaf' or not b['init'] or r.random() > 0.6:
+                continue
+            old_b = dict(b)
+            if b['dflt'] == 'req':
+                if b['ty'] == 'ints':
+                    b.update(dflt='fac', fac='list', fid=1)
+                else:
+                    b.update(dflt='def', default=(7 if b['ty'] == 'int' else 'base'))
+            elif r.random() < 0.6:
+                b['dflt'] = 'req'; b.pop('default', None); b.pop('fac', None)
+            elif b['dflt'] == 'def':
+                b['default'] = 8 if b['ty'] == 'int' else 'other'
+            if b['ty'] == 'ints' and r.random() < 0.5:
+                b['bare_list'] = True
+            if not valid_order(base):
+                b.clear(); b.update(old_b)
+            else:
+                b['overridden'] = True
+        spec['base_fields'] = base
+        spec['base_first'] = r.random() < 0.6         # history: the base class is loaded and dumped first
     return spec
+
+
+def valid_order(fields):
+    """dataclass rule: among positional init fields no required one after a defaulted one"""
+    seen_default = False
+    for f in fields:
+        if not f['init'] or f.get('kw_only'):
+            continue
+        if f['dflt'] != 'req':
+            seen_default = True
+        elif seen_default:
+            return False
+    return True
+
+
+def base_preops(spec, doc, acc):
+    """(class name, complete document of its BASE class) for every class of the tree whose base is used first"""
+    if spec.get('base_first') and spec.get('base_fields') and isinstance(doc, dict):
+        names = [b['name'] for b in spec['base_fields'] if b['init']]
+        if all(n in doc for n in names):
+            acc.append({'cls': spec['name'], 'doc': {n: doc[n] for n in names}})
+    for f in spec['fields']:
+        if f['kind'] == 'nested' and isinstance(doc, dict) and isinstance(doc.get(f['name']), dict):
+            base_preops(f['cls'], doc[f['name']], acc)
+        elif f['kind'] == 'list' and isinstance(doc, dict) and doc.get(f['name']):
+            base_preops(f['cls'], doc[f['name']][0], acc)
+    return acc
 
 
 def kw_pairs(spec, acc):
@@ -575,7 +627,8 @@ def run(ctx):
     re_ = ctx.sub_rng('entries')
     for c in classes:
         c['entry'] = {e: re_.choice(ENTRIES) for e in engines}
-    payload = {'classes': [{'spec': c['spec'], 'engine': e, 'docs': c['docs'], 'entry': c['entry'][e]} for c in classes for e in engines],
+    payload = {'classes': [{'spec': c['spec'], 'engine': e, 'docs': c['docs'], 'entry': c['entry'][e],
+                            'pre': base_preops(c['spec'], c['complete'], [])} for c in classes for e in engines],
                'pathclasses': [{'spec': c['spec'], 'engine': e, 'docs': c['docs']} for c in pcases for e in engines],
                'witness': [{'kind': 'path_factory'}, {'kind': 'v1_kwonly'}, {'kind': 'required_path'}]}
     impl = ctx.impl('c09', payload)
@@ -621,7 +674,9 @@ def run(ctx):
         ctx.hist('class_depth', spec_depth(c['spec']))
         ctx.hist('subsets', 'exhaustive' if c['exhaustive'] else 'random')
         ctx.hist('class_style', '%s%s%s%s' % ('kw_only_cls ' if c['spec']['kw_only_cls'] else '', 'frozen ' if c['spec']['frozen'] else '',
-                                               'slots ' if c['spec']['slots'] else '', 'base' if c['spec']['base_split'] else '') or 'plain')
+                                               'slots ' if c['spec']['slots'] else '', ('base+override' if any(b.get('overridden') for b in c['spec'].get('base_fields', [])) else 'base') if c['spec']['base_split'] else '') or 'plain')
+        if c['spec'].get('base_first'):
+            ctx.hist('history', 'base-class-used-first')
         for f in c['spec']['fields']:
             ctx.hist('field', '%s/%s/%s%s' % (f['kind'], f['dflt'], 'init' if f['init'] else 'noinit', '/kw_only' if f.get('kw_only') else ''))
         for e in engines:
@@ -641,7 +696,8 @@ def run(ctx):
                         ctx.hist('known_region', 'F43-v1-kwonly-required-positional')
                     else:
                         ctx.violation('%s engine (%s), class %s, document %s: %s' % (e, c['entry'][e], c['spec']['name'], json.dumps(d)[:200], bad),
-                                      {'kind': 'case', 'spec': c['spec'], 'engine': e, 'doc': d, 'entry': c['entry'][e]})
+                                      {'kind': 'case', 'spec': c['spec'], 'engine': e, 'doc': d, 'entry': c['entry'][e],
+                                       'pre': base_preops(c['spec'], c['complete'], [])})
                 if model is not None and not (in43 and 'F43-v1-kwonly-required-positional' in resolved):
                     ctx.traces_validated += 1
                     if impl_show(res) != model[j]:
@@ -686,7 +742,7 @@ def run(ctx):
 def replay(ctx, obj):
     if obj.get('kind') == 'case':
         res = ctx.impl('c09', {'classes': [{'spec': obj['spec'], 'engine': obj['engine'], 'docs': [obj['doc']],
-                                            'entry': obj.get('entry', 'fromdict')}]})['classes'][0][0]
+                                            'entry': obj.get('entry', 'fromdict'), 'pre': obj.get('pre', [])}]})['classes'][0][0]
         bad = direct_predicate(obj['spec'], obj['doc'], res)
         print('implementation outcome: %s' % json.dumps(res)[:600])
         print('property: %s' % (bad or 'holds'))
